@@ -18,6 +18,7 @@ import (
 	"bytes"
 	"fmt"
 	"math/big"
+	"os"
 	"sort"
 	"strings"
 
@@ -166,6 +167,19 @@ func reexecMirror(n *chainkit.Node, blk *types.Block, cold bool) (res execResult
 	res.gasUsed = *usedGas
 	res.gasRewards, res.subsidy = gasRewards.String(), header.Subsidy.String()
 	return
+}
+
+// queueText: the withdraw queue as execution sees it.
+func queueText(st *state.StateDB) string {
+	q := st.GetWithdrawQueue()
+	if q == nil {
+		return ""
+	}
+	var o []string
+	for _, r := range q.Records {
+		o = append(o, fmt.Sprintf("%x:%d:%s:%d", r.TxHash.Bytes()[:3], r.Finished, r.FinalBalance, r.CompletionHeight))
+	}
+	return strings.Join(o, " ")
 }
 
 func headerResult(h *types.Header) execResult {
@@ -549,12 +563,23 @@ func (s *session) runBlock(bl []string) error {
 			br.nSlashed = len(conf)
 		}
 	}
+	liveQueue := queueText(work.State)
 	// (2) import into both nodes
 	if err := w.kit.Import(blk); err != nil {
 		rr.blocks = append(rr.blocks, br)
 		rr.viol = &violation{kind: "disagree", at: at, what: fmt.Sprintf("block %d assembled by the builder path (%d txs, %d evidences, forged=%v, slashData=%d bytes) is not accepted by the import path: %v",
 			br.num, len(blk.Transactions()), br.nEv, forged, len(h.SlashData), err)}
 		return nil
+	}
+	// (2b) reopen: what the live state object of the builder holds after the block (withdraw queue: Finished flags, balances)
+	// must be what a state reopened from the block's roots shows; otherwise the next block, which starts from a FRESH StateDB,
+	// executes on other data than a StateDB carried across blocks (side-chain verification) does.
+	if hs, err := w.kit.B.HeadState(); err == nil {
+		if re := queueText(hs); re != liveQueue && os.Getenv("C06_NOREOPEN") == "" {
+			rr.blocks = append(rr.blocks, br)
+			rr.viol = &violation{kind: "nondeterminism", at: at, what: fmt.Sprintf("after block %d the withdraw queue reopened from the block's roots differs from the builder's live state object (a carried-over StateDB and a fresh one execute the next block on different data): live [%s] reopened [%s]", br.num, liveQueue, re)}
+			return nil
+		}
 	}
 	// (3) K re-executions
 	var first *execResult
